@@ -101,20 +101,26 @@ WriterFlags(f, crc, secs) ==
   \cup (IF f.enc = "encfix" THEN {"FIX_KEY"} ELSE {})
   \cup {"EXISTS"}
 
-OffsetTableSize(len) == 4 * (SectorCount(len) + 1)
+\* sector offset table: n + 1 entries, one more (end of the checksum sector) when the file carries sector checksums
+\* (standard MPQ layout since 7734a50; before that the builder put a checksum table between offset table and data and
+\* did not count it in the block size)
+OffsetTableSize(len, crc) == 4 * (SectorCount(len) + 1 + (IF crc THEN 1 ELSE 0))
+\* the checksum sector behind the data sectors: one ADLER32 per sector of the sector as stored, raw, never encrypted
+CrcSectorSize(len, crc) == IF crc THEN 4 * SectorCount(len) ELSE 0
 \* block entry's compressed size (CRC bytes are not counted)
-WriterCsize(f, secs) == IF IsSingleUnit(f.len) THEN secs[1].st ELSE OffsetTableSize(f.len) + SumStored(secs)
+WriterCsize(f, crc, secs) == IF IsSingleUnit(f.len) THEN secs[1].st
+                             ELSE OffsetTableSize(f.len, crc) + SumStored(secs) + CrcSectorSize(f.len, crc)
 \* bytes the file occupies in the archive
 WriterSpan(f, crc, secs) == IF IsSingleUnit(f.len)
                             THEN secs[1].st + (IF crc /\ ~(AnyShrunk(secs) /\ LossySel(f.method)) THEN 4 ELSE 0)
-                            ELSE OffsetTableSize(f.len) + (IF crc THEN 4 * SectorCount(f.len) ELSE 0) + SumStored(secs)
+                            ELSE WriterCsize(f, crc, secs)          \* everything is counted in the block size
 
 KeyFor(nm, fix, pos, fsize) == IF fix THEN FixKey(LibFileKey(nm), WFromNat(pos), WFromNat(fsize)) ELSE LibFileKey(nm)
 
 MkBlock(f, crc, secs, pos) ==
-  [pos |-> pos, csize |-> WriterCsize(f, secs), fsize |-> f.len, flags |-> WriterFlags(f, crc, secs),
+  [pos |-> pos, csize |-> WriterCsize(f, crc, secs), fsize |-> f.len, flags |-> WriterFlags(f, crc, secs),
    \* ghost fields: what the writer really laid down
-   secs |-> secs, method |-> f.method, single |-> IsSingleUnit(f.len),
+   secs |-> secs, method |-> f.method, single |-> IsSingleUnit(f.len), crc |-> crc,
    key |-> KeyFor(f.name, f.enc = "encfix", pos, f.len)]
 
 \* linear probing insertion; result [ok, slots]
@@ -208,7 +214,10 @@ ReadBlock(b, nm) ==
      IF ~keyOk THEN "garbage"
      ELSE IF \E j \in 1..Len(b.secs) : ReaderSectorCompressed(b, j) # b.secs[j].shrunk THEN "garbage"
      ELSE IF AnyShrunk(b.secs) /\ DecodeClass(b.method) = "panic" THEN "panic"
-     ELSE IF DevLimitRejectsOwnOutput(b) \/ (AnyShrunk(b.secs) /\ DecodeClass(b.method) = "err") THEN "zerofill"
+     \* a sector that fails to decode ends the read with its error (5c764f6; before that the sector was replaced by
+     \* zeros and the read returned Ok: outcome "zerofill", F-C01-c)
+     ELSE IF DevLimitRejectsOwnOutput(b) THEN "err:limit"
+     ELSE IF AnyShrunk(b.secs) /\ DecodeClass(b.method) = "err" THEN "err:codec"
      ELSE "exact"
 
 \* ---------------------------------------------------------------------------------------------
@@ -347,7 +356,7 @@ SectorTestSound == \A j \in 1..Len(vblocks) : \A q \in 1..Len(vblocks[j].secs) :
                       (vblocks[j].secs[q].st < vblocks[j].secs[q].r) <=> vblocks[j].secs[q].shrunk
 \* stored never exceeds raw plus the table
 StoredBound == \A j \in 1..Len(vblocks) : LET b == vblocks[j] IN
-                  b.csize <= b.fsize + (IF b.single THEN 0 ELSE OffsetTableSize(b.fsize))
+                  b.csize <= b.fsize + (IF b.single THEN 0 ELSE OffsetTableSize(b.fsize, b.crc) + CrcSectorSize(b.fsize, b.crc))
 \* files do not overlap
 NoOverlap == \A j \in 1..Len(vblocks) : vblocks[j].pos + vblocks[j].csize <= (IF j < Len(vblocks) THEN vblocks[j+1].pos ELSE vpos)
 \* every added name sits in exactly one slot, every spelling finds its block
